@@ -1,4 +1,5 @@
 import Csverif.Model.Runnable
+import Csverif.Model.RunnableThreads
 import Csverif.Driver.Wire
 /- Line protocol for the runnable layers.
    runseq:  `<mn> <mx> <mult> <sleep> <b0> <o1> <o2> …`  rationals as `n/d`; outcomes S N B E X
@@ -146,3 +147,80 @@ def stepNotify (toks : List String) : String :=
   | _ => "bad-op"
 
 end CS.Driver.Runnable
+
+/-! ## two-thread small-step model (Model/RunnableThreads.lean), line-granular ticks
+   threads: stateful; `reset <v>` | `C <tmo>` | `S <tmo> <outcome> <until>` | `call start` | `call stop <f> <w>` | `call wake` |
+            `call wait <timed>`  → observable summary (same format as harness/c18_sched.py `Ctl.obs`) -/
+namespace CS.Driver.RunnableTh
+open CS.Runnable CS.Wire CS.Driver.Runnable
+open CS.Runnable.Th (SPc CPc Ret Thr Call Tick lineTick nDo)
+
+structure TObs where
+  v : Bool
+  s : Th.St
+
+def tInit : TObs := { v := false, s := Th.init }
+
+/-- backoff parameters of the harness service: min 1/4, max 4, multiplier 2, sleep 1/8 (all exact in binary floating point) -/
+def hp : Params := ⟨1/4, 4, 2⟩
+def hSleep : Rat := 1/8
+
+/-- `in_backoff` after the recorded outcomes (oldest first) -/
+def backoffOf (dos : List Outcome) : Rat := dos.reverse.foldl (fun b o => after hp b o) 0
+
+def outLetter : Outcome → String
+  | .success => "S" | .noop => "N" | .backoffReq => "B" | .exc => "E" | .baseExc => "X" | .noopThenFail => "F"
+
+def encRet : Ret → String
+  | .none => "-"
+  | .startOk | .stopRet _ _ | .wakeRet => "ok:None"
+  | .waitTrue => "ok:True"
+  | .waitFalse => "ok:False"
+  | .startRefused | .startAlready => "RuntimeError"
+  | .waitTimeout => "TimeoutError"
+  | .attrErr => "AttributeError"
+
+def encIntr : Intr → String
+  | .absent => "absent" | .clear => "clear" | .set => "set"
+
+def encSvc (s : Th.St) : String :=
+  match s.svc with
+  | .none => "none"
+  | .dead => "dead"
+  | p => if p.blocked then "blocked:evwait:" ++ encRat (sleepFor hSleep (backoffOf s.dos)) else "parked@" ++ p.label
+
+def encCal (s : Th.St) : String :=
+  match s.cal with
+  | .idle => "idle"
+  | p => if p.blocked then "blocked:join" else "parked@" ++ p.label
+
+def encT (o : TObs) : String :=
+  let s := o.s
+  let outs := if s.dos.isEmpty then "-" else String.join (s.dos.reverse.map outLetter)
+  s!"svc={encSvc s}|cal={encCal s}|stopping={encBool s.stopping} shutdown={encBool s.shutdown} stopped={encBool s.stopped} intr={encIntr s.intr} thr={encBool (s.thr != .none)} alive={encBool (Th.alive s)} do={nDo s} done={s.nDone} starts={s.nStart} outs={outs} ret={encRet s.ret} b={encRat (backoffOf s.dos)}"
+
+def stepThreads (o : TObs) (toks : List String) : TObs × String :=
+  let fin (s : Th.St) : TObs × String := let o' := { o with s := s }; (o', encT o')
+  match toks with
+  | ["reset", v] => let o' : TObs := { v := v == "1", s := Th.init }; (o', encT o')
+  | ["C", tmo] =>
+    match decBool tmo with
+    | some tmo => fin (lineTick o.v o.s (.c tmo))
+    | none => (o, "bad-arg")
+  | ["S", tmo, oc, untl] =>
+    match decBool tmo, parseOutcome oc, decBool untl with
+    | some tmo, some oc, some untl => fin (lineTick o.v o.s (.s tmo oc untl))
+    | _, _, _ => (o, "bad-arg")
+  | ["call", "start"] => fin (lineTick o.v o.s (.call .start))
+  | ["call", "stop", f, w] =>
+    match decBool f, decBool w with
+    | some f, some w => fin (lineTick o.v o.s (.call (.stop f w)))
+    | _, _ => (o, "bad-arg")
+  | ["call", "wake"] => fin (lineTick o.v o.s (.call .wake))
+  | ["call", "wait", t] =>
+    match decBool t with
+    | some t => fin (lineTick o.v o.s (.call (.wait t)))
+    | none => (o, "bad-arg")
+  | _ => (o, "bad-op")
+
+end CS.Driver.RunnableTh
